@@ -14,15 +14,15 @@ import (
 const redisPkg = "github.com/go-redis/redis/v8"
 
 type redisRoles struct {
-	client                                   *types.Named
-	recordT                                  *types.Named
-	recKey, recVersion, recExpires           *types.Var
-	storage                                  map[string]*ssa.Function
-	all                                      []*ssa.Function
-	encode, expiration, mapKey, unmapKey     *ssa.Function
-	mapErr                                   *ssa.Function
-	newID                                    *ssa.Function
-	toProto, fromProto                       *ssa.Function
+	client                               *types.Named
+	recordT                              *types.Named
+	recKey, recVersion, recExpires       *types.Var
+	storage                              map[string]*ssa.Function
+	all                                  []*ssa.Function
+	encode, expiration, mapKey, unmapKey *ssa.Function
+	mapErr                               *ssa.Function
+	newID                                *ssa.Function
+	toProto, fromProto                   *ssa.Function
 }
 
 func resolveRedisRoles(c *Ctx) *redisRoles {
